@@ -319,7 +319,20 @@ static void mon_quiescent(const char *after)
     int    k, fd;
     FD_ZERO(&r);
     FD_ZERO(&w);
-    (void)ares_fds(ch, &r, &w);
+    {
+      /* the return value is the bound an application hands to select(): highest descriptor in either set + 1, and
+       * 0 - "nothing to wait for" - exactly when both sets are empty */
+      int nfds = ares_fds(ch, &r, &w), top = -1;
+      for (fd = 0; fd < FD_SETSIZE; fd++) {
+        if (FD_ISSET(fd, &r) || FD_ISSET(fd, &w)) {
+          top = fd;
+        }
+      }
+      MON_EVAL("fd_legacy_nfds");
+      if (nfds != top + 1) {
+        vh_violation("fd:legacy-nfds", "after %s: ares_fds returned %d but the highest descriptor in its sets is %d", after, nfds, top);
+      }
+    }
     MON_EVAL("fd_legacy_fds");
     for (fd = 0; fd < sim_next_fd + 4 && fd < FD_SETSIZE; fd++) {
       if ((FD_ISSET(fd, &r) || FD_ISSET(fd, &w)) &&
